@@ -8,7 +8,11 @@ activity between every two of its operations:
               other machine) is defined, instantiated and driven;
   subclass  - a subclass of A's class that only adds callbacks (no transition from an inherited
               state) is defined, instantiated and driven;
-  other     - an unrelated machine class is defined and driven.
+  other     - an unrelated machine class is defined and driven;
+  stateids  - an unrelated machine class whose state ids are the names of A's callbacks (methods of A's
+              class, its model and listeners) is defined, instantiated and driven;
+  nested    - every operation of A is performed from inside a running callback of an unrelated
+              machine (so that the other machine's processing loop is active around it).
 A's observations must be the same in both runs and equal to the model of A alone.
 Probes for the two known sharing defects: the signature cache keyed by qualified name (D7) and a
 subclass declaring a transition from an inherited state (D13).
@@ -24,7 +28,7 @@ CHUNK = 100
 DRIVER_ERR = {"obs": eng.DRIVER_ERR, "same": False}
 K = dict(cbs=0.5, conv=0.3, guards=0.4, validators=0.2, sends=0.1, raises=0.03, multi_event=0.3, listeners=(0, 2),
          multi_prov=0.25, p_async=0.0, rtc_false=0.15, ops=(2, 8), falsy_machine=0.0)
-KINDS = ["instance", "sameclass", "subclass", "other"]
+KINDS = ["instance", "sameclass", "subclass", "other", "nested", "stateids"]
 
 
 class _AsyncListener:
@@ -80,6 +84,21 @@ def make_between(sc, kind, rng_seed):
                         reg(mdl)
                         state["b"] = Sub(mdl)
                     state["b"].send(eng.evname(rng.randrange(sc["ne"])), tag=72)
+                elif kind == "stateids":
+                    from statemachine import State, StateMachine
+                    if "cls" not in state or rng.random() < 0.3:
+                        ids = sorted({eng.cbname(nm) for prov in sc["provs"] for nm in prov})
+                        attrs = {"zz0": State(initial=True)}
+                        for i_ in ids:
+                            attrs[i_] = State()
+                        attrs["zz_go"] = attrs["zz0"].to(*[attrs[i_] for i_ in ids]) if ids else attrs["zz0"].to.itself()
+                        for j_, i_ in enumerate(ids):
+                            attrs[f"zz_back{j_}"] = attrs[i_].to(attrs["zz0"])
+                        state["cls"] = type(StateMachine)("Ledger", (StateMachine,), attrs)
+                    b = state["cls"]()
+                    b.send("zz_go")
+                elif kind == "nested":
+                    pass
                 else:
                     from statemachine import State, StateMachine
 
@@ -96,12 +115,34 @@ def make_between(sc, kind, rng_seed):
     return between
 
 
+def make_wrap():
+    from statemachine import State, StateMachine
+    box = {}
+
+    def wrap(ns, thunk):
+        if "host" not in box:
+            class Host(StateMachine):
+                idle = State(initial=True)
+                busy = State()
+                work = idle.to(busy) | busy.to(idle)
+
+                def on_work(self, thunk):
+                    return thunk()
+
+                def on_enter_busy(self):
+                    return None
+            box["host"] = Host()
+        return box["host"].send("work", thunk=thunk)       # the on-callback's value is the event's result
+    return wrap
+
+
 def run_impl(sc):
     if sc.get("probe") == "d13":
         return d13_probe()
     alone = eng.run_impl(sc)
     try:
         eng.BETWEEN = make_between(sc, sc["kind"], sc["seed"])
+        eng.WRAP = make_wrap() if sc["kind"] == "nested" else None
         # eng.run_impl creates the Run object; tags must exist before the first callback
         orig_run = eng.Run
 
@@ -114,6 +155,7 @@ def run_impl(sc):
         inter = eng.run_impl(sc)
     finally:
         eng.BETWEEN = None
+        eng.WRAP = None
         eng.Run = orig_run
 
     def strip(o):
@@ -165,13 +207,14 @@ def generate(rng, tier):
     for i in range(n):
         sc = enggen.gen_scenario(rng, K)
         sc["async"] = []
-        sc["kind"] = KINDS[i % 4]
+        sc["kind"] = KINDS[i % len(KINDS)]
         sc["seed"] = rng.randrange(10 ** 6)
         scs.append(sc)
     scs.append({"probe": "d13"})
     return scs, [("seeded random machines, each run alone and with unrelated activity between every two operations "
                   "(another instance of the class with other listeners incl. coroutine ones / another class with "
-                  "the same class and method names / a subclass adding callbacks / an unrelated class); + probe of a "
+                  "the same class and method names / a subclass adding callbacks / an unrelated class / an unrelated class "
+                  "whose state ids are A's callback names / A driven from inside a callback of an unrelated machine); + probe of a "
                   "subclass declaring a transition from an inherited state", len(scs))]
 
 
